@@ -7,8 +7,9 @@
     (harness/instr profile "future"): the CAS on [closed]; the assignment of [err] / [message];
     [close(done)] (+ [timer.Stop], which has no scheduling point of its own); [closer()] (= [removeFuture]);
     [mu.Lock] + take and clear [forwarders] + [Unlock] in [close]; one [liaison.Tell] per forwarder;
-    in [PipeTo]: [mu.Lock], then [closed.Load] + the rest of the critical section; in [ask]: [NewFuture]
-    (arms the timer), then [appendFuture] + the send of the request + return.
+    in [PipeTo]: [mu.Lock], then [closed.Load] + the rest of the critical section, then (closed branch) the
+    receive on [done] + the read of the result; in [ask]: [NewFuture] (arms the timer), then [appendFuture],
+    then [Closed()] (= closed.Load) + the conditional [removeFuture] + the send of the request + return.
 
     The model follows ONE future (the "focus" future, registered under path [fpath] with identity [fid]);
     every other Ask / actor of the system appears as environment traffic on the shared registry
@@ -39,7 +40,8 @@ Inductive pc : Type :=
 | Await (k : pc)                      (* holds the future returned by Ask / the request envelope: waits for [ask] to return *)
 (* Context.ask *)
 | ANew (timeout : N)                  (* future.NewFuture: arms the timer when timeout > 0 *)
-| AAppend                             (* system.appendFuture; recipient mailbox Enqueue(request); return *)
+| AAppend                             (* system.appendFuture *)
+| ACheck                              (* futureIns.Closed() -> removeFuture; recipient mailbox Enqueue(request); return *)
 (* the time.AfterFunc goroutine *)
 | TFire
 (* a reply: Context.tell -> system.findMailbox(path) -> Enqueue *)
@@ -56,6 +58,7 @@ Inductive pc : Type :=
 (* Future.PipeTo(forwarders) *)
 | PLock (fs : list N)
 | PLoad (fs : list N)
+| PWaitDone (fs : list N)             (* closed branch: <-f.done, then read f.message / f.err *)
 | PTell (l : list N) (r : res)
 (* Result (full = true) / Wait (full = false) *)
 | WRecv (full : bool)
@@ -78,9 +81,10 @@ Record st : Type := mkst {
   reg : list (N * N);                (* actorContexts / futureAgents: path -> identity of what is registered there *)
   sent : bool;                       (* the request was enqueued at the recipient and ask returned *)
   tells : list (N * res);            (* PipeResults told so far: (forwarder, (message, error)) *)
-  rets : list (nat * res);           (* values returned by Result / Wait: (thread, (message, error)) *)
+  rets : list (nat * bool * res);    (* values returned by Result (true) / Wait (false): (thread, Result?, (message, error)) *)
   routed : list (N * val * option N);(* replies: (addressed path, value, identity of the mailbox that got it; None = root mailbox) *)
   (* ghost history (never read by the code's steps) *)
+  created : bool;                    (* NewFuture has run *)
   winners : list nat;                (* threads that passed the CAS *)
   attempts : list nat;               (* threads that executed the CAS (a reply / timeout / Close reached the future) *)
   final : option val;                (* the value of the winning close *)
@@ -88,13 +92,11 @@ Record st : Type := mkst {
   wlog : list (nat * bool);          (* writes of err/message: (thread, was done already closed?) *)
   fired : option N;                  (* time at which the timer callback ran *)
   closer_ran : bool;                 (* closer() = removeFuture has run *)
-  late_reg : bool;                   (* appendFuture ran after closer() *)
-  stale : list N;                    (* forwarders of a PipeTo that loaded closed = true before the assignment *)
   thr : list pc                      (* thread i is at [nth i thr] *)
 }.
 #[export] Instance eta_st : Settable _ :=
   settable! mkst <now; tmo; armed; tstopped; closed; err; msg; done; fwd; mu; reg; sent; tells; rets; routed;
-                  winners; attempts; final; assigned; wlog; fired; closer_ran; late_reg; stale; thr>.
+                  created; winners; attempts; final; assigned; wlog; fired; closer_ran; thr>.
 
 Fixpoint upd {A} (l : list A) (i : nat) (x : A) : list A :=
   match l, i with
@@ -124,7 +126,7 @@ Definition opt_eqb (a : option N) (b : N) : bool := match a with Some x => x =? 
 (** labels = what the instrumented Go code reports at the scheduling point in front of the step *)
 Inductive label : Type :=
 | LStart | LAwait | LNew | LAppend | LFire | LLookup | LDeath | LCas | LAssignErr | LAssignMsg | LCloseDone
-| LCloser | LLockClose | LTell | LLockPipe | LLoad | LRecv | LForeign | LNone.
+| LCloser | LLockClose | LTell | LLockPipe | LLoad | LRecv | LForeign | LCheck | LPipeWait | LNone.
 
 Definition label_of (p : pc) : label :=
   match p with
@@ -132,6 +134,7 @@ Definition label_of (p : pc) : label :=
   | Await _ => LAwait
   | ANew _ => LNew
   | AAppend => LAppend
+  | ACheck => LCheck
   | TFire => LFire
   | RLookup _ _ => LLookup
   | DLookup => LDeath
@@ -144,6 +147,7 @@ Definition label_of (p : pc) : label :=
   | CTell _ _ | PTell _ _ => LTell
   | PLock _ => LLockPipe
   | PLoad _ => LLoad
+  | PWaitDone _ => LPipeWait
   | WRecv _ => LRecv
   | FReg _ _ | FUnreg _ => LForeign
   | Done => LNone
@@ -160,10 +164,11 @@ Definition step (i : nat) (s : st) : option st :=
     | Await k => if sent s then goto s k else None
     | ANew t =>
         if 0 <? t
-        then Some (s <| tmo := t |> <| armed := Some (now s) |> <| thr := upd (thr s) i AAppend ++ [Start TFire] |>)
-        else goto (s <| tmo := t |>) AAppend
-    | AAppend =>
-        goto (s <| reg := rinsert fpath fid (reg s) |> <| sent := true |> <| late_reg := closer_ran s |>) Done
+        then Some (s <| tmo := t |> <| armed := Some (now s) |> <| created := true |> <| thr := upd (thr s) i AAppend ++ [Start TFire] |>)
+        else goto (s <| tmo := t |> <| created := true |>) AAppend
+    | AAppend => goto (s <| reg := rinsert fpath fid (reg s) |>) ACheck
+    | ACheck =>
+        goto (s <| reg := if closed s then rremove fpath (reg s) else reg s |> <| sent := true |>) Done
     | TFire =>
         match armed s with
         | Some t0 =>
@@ -208,16 +213,17 @@ Definition step (i : nat) (s : st) : option st :=
         end
     | PLoad fs =>
         if closed s
-        then goto (s <| mu := None |> <| stale := if assigned s then stale s else stale s ++ fs |>)
-                  (match fs with [] => Done | _ => PTell fs (msg s, err s) end)
+        then goto (s <| mu := None |>) (PWaitDone fs)
         else goto (s <| mu := None |> <| fwd := uniq [] (fwd s ++ fs) |>) Done
+    | PWaitDone fs =>
+        if done s then goto s (match fs with [] => Done | _ => PTell fs (msg s, err s) end) else None
     | PTell l r =>
         match l with
         | [] => goto s Done
         | x :: l' => goto (s <| tells := tells s ++ [(x, r)] |>) (match l' with [] => Done | _ => PTell l' r end)
         end
     | WRecv full =>
-        if done s then goto (s <| rets := rets s ++ [(i, (if full then msg s else None, err s))] |>) Done else None
+        if done s then goto (s <| rets := rets s ++ [(i, full, (if full then msg s else None, err s))] |>) Done else None
     | FReg p id => goto (s <| reg := rinsert p id (reg s) |>) Done
     | FUnreg p => goto (s <| reg := rremove p (reg s) |>) Done
     end
@@ -257,8 +263,8 @@ Definition prog_ok (g : prog) : bool :=
 Definition init (timeout : N) (progs : list prog) : st :=
   {| now := 0; tmo := 0; armed := None; tstopped := false; closed := false; err := None; msg := None; done := false;
      fwd := []; mu := None; reg := []; sent := false; tells := []; rets := []; routed := [];
-     winners := []; attempts := []; final := None; assigned := false; wlog := []; fired := None;
-     closer_ran := false; late_reg := false; stale := [];
+     created := false; winners := []; attempts := []; final := None; assigned := false; wlog := []; fired := None;
+     closer_ran := false;
      thr := Start (ANew timeout) :: map (fun g => Start (first_pc g)) progs |}.
 
 (** schedules: a choice that cannot step (finished, blocked or non-existent thread) is skipped *)
@@ -270,5 +276,6 @@ Definition do_act (s : st) (a : act) : st :=
   end.
 Definition run (sched : list act) (s : st) : st := fold_left do_act sched s.
 
+Definition reach (timeout : N) (progs : list prog) (s : st) : Prop := exists sched, run sched (init timeout progs) = s.
 Definition reachable (s : st) : Prop :=
-  exists timeout progs sched, forallb prog_ok progs = true /\ run sched (init timeout progs) = s.
+  exists timeout progs, forallb prog_ok progs = true /\ reach timeout progs s.
